@@ -1,2 +1,3 @@
 //! Verification harness crate for RainDB (Engine A harnesses live behind cfg(kani); native replay in bin/replay.rs).
 pub mod util;
+pub mod faultfs;
